@@ -109,6 +109,50 @@ def run(ctx):
         sheets = ('Sheet1',) if rng.random() < 0.6 else ('Sheet1', 'Data')
         m = gen.gen_model(rng, n_inputs=rng.randint(2, 6),
                           n_formulas=rng.randint(3, 9), sheets=sheets)
+        # references to cells the model does not hold (they read as blank;
+        # evaluating must not create them)
+        home = sheets[0]
+        for j, absent in enumerate([(home, 8, 9), (sheets[-1], 9, 3)]):
+            key = (home, 6, j + 1)
+            a = gen.R(absent, home)
+            if j == 0:
+                ast = ('bin', '+', a, gen.lit(rng.choice([1, 2, 5])))
+            else:
+                ast = ('call', 'IF', [('bin', '>', gen.R(m.inputs[0], home),
+                                       gen.lit(2)), gen.lit(0), a])
+            m.cells[key] = ('f', ast)
+            m.order.append(key)
+            m.formulas.append(key)
+            m.deps[key] = set()
+            m.depth[key] = 1
+        # twins: the same formula text on two sheets, unqualified references
+        if len(sheets) == 2 and rng.random() < 0.7:
+            a_, b_ = sheets
+            for j in range(rng.randint(1, 3)):
+                c1, r1 = rng.randint(1, 2), 1
+                twin = rng.choice([
+                    ('bin', '*', ('ref', None, c1, r1, False, False),
+                     gen.lit(2)),
+                    ('call', 'SUM', [('rng', None, 1, 1, 2, 1, gen.FALSE4)]),
+                    ('bin', '+', ('ref', None, 1, 1, False, False),
+                     ('ref', None, 2, 1, False, False)),
+                ])
+                for sh_ in (a_, b_):
+                    key = (sh_, 7, j + 1)
+                    m.cells[key] = ('f', twin)
+                    m.order.append(key)
+                    m.formulas.append(key)
+                    m.deps[key] = set()
+                    m.depth[key] = 1
+                    # both sheets need their own inputs at A1:B1
+                    for cc in (1, 2):
+                        if (sh_, cc, 1) not in m.cells:
+                            m.cells[(sh_, cc, 1)] = rng.choice(
+                                [3, 4, 6, 8, 20])
+                            m.order.append((sh_, cc, 1))
+                            m.inputs.append((sh_, cc, 1))
+                            m.deps[(sh_, cc, 1)] = set()
+                            m.depth[(sh_, cc, 1)] = 0
         wb = m.workbook()
         try:
             want = {k: ref.to_norm(wb.value(k)) for k in m.order}
